@@ -227,8 +227,8 @@ package resolve
 // The constraint parser builds new objects only (assumed frame; it is verified
 // for panic-freedom in util/semver under C04, not for this frame).
 //@ func ::semver.System.ParseConstraint
-//@   modifies alloc H:semver.* H:*semver.* H:[]* H:bool H:int E:semver.* E:string E:uint8 E:any B:* M:map[string]* G:semver.*
-//@   trusted
+//@   modifies alloc H:semver.* H:*semver.* H:[]* H:bool H:int E:semver.* E:string E:uint8 E:any B:* M:map[string]* G:semver.* H:strings.Builder.* X:buffer*
+//@   property C12
 
 // matchRequirement keeps exactly the versions that satisfy the requirement
 // (by constraint, or by string equality when the requirement does not parse),
